@@ -475,6 +475,41 @@ def linecfg_oracle(ctx, r, thorough):
                                          "non-comment Fortran line of %d columns with C_line_length=%d F_line_length=%d (%s line %d)" % (
                                              len(line), cl, fl, fn, ln), {"yaml": lib.yaml(), "file": fn, "line": ln})
                                 break
+            if i == 0:
+                # identifiers of ordinary length (<= 63 characters): overloaded type-bound procedures, long dummy names,
+                # long function names, at DEFAULT line lengths - no non-comment Fortran line may exceed 132 columns
+                ln45 = "compute_the_weighted_average_of_all_the_value"           # 45 characters
+                ln61 = "a_very_long_but_perfectly_legal_dummy_argument_name_number_one"[:61]
+                longlib = libgen.Lib("longnames", "c++", [
+                    {"decl": "class Accumulator1234", "declarations": [
+                        {"decl": "Accumulator1234()"},
+                        {"decl": "void %s(int n)" % ln45},
+                        {"decl": "void %s(double x)" % ln45},
+                        {"decl": "void %s(int n, double x)" % ln45},
+                        {"decl": "void %s(const std::string & name)" % ln45}]},
+                    {"decl": "double %s_free(double %s, double %s2, int *%s_out +intent(out))" % (ln45, ln61, ln61[:60], ln61[:57])},
+                    {"decl": "void %s_over(int i)" % ln45}, {"decl": "void %s_over(double d)" % ln45},
+                    {"decl": "void %s_over(int i, double d, const std::string & s)" % ln45},
+                ], {"wrap_python": False, "wrap_lua": False})
+                d = common.scratch()
+                try:
+                    y = shroudrun.write_yaml(d, "longnames.yaml", longlib.yaml())
+                    cfg, exc, out = shroudrun.run_inproc([y], d)
+                    ctx.count(1)
+                    ctx.nontrivial(("linecfg", "longnames"))
+                    if exc is not None:
+                        ctx.fail("linecfg:exception:longnames", "Shroud failed on long identifiers: %r" % (exc,), {"yaml": longlib.yaml()})
+                    else:
+                        for fn, data in shroudrun.read_tree(d).items():
+                            if fn.endswith(".f"):
+                                for ln, line in enumerate(data.decode().split("\n"), 1):
+                                    if len(line) > 132 and not line.lstrip().startswith("!"):
+                                        ctx.fail("linecfg:fortran-line-over-132:default:longnames",
+                                                 "non-comment Fortran line of %d columns at default line lengths with identifiers <= 63 characters (%s line %d): %s" % (
+                                                     len(line), fn, ln, line[:80]), {"yaml": longlib.yaml(), "file": fn, "line": ln})
+                                        break
+                finally:
+                    common.rmtree(d)
             if "base" in trees:
                 def diff(a, b, pred):
                     return sorted(f for f in set(a) | set(b) if pred(f) and a.get(f) != b.get(f))
